@@ -1,11 +1,16 @@
 // C16 harness: tensor indexing / views / slices (all storages, range overload, rank-1 segment) / reshape (all storages) /
-// gather (several return scalar types) / integral / remove_if / stack (vector and matrix form) on the real headers.
+// gather (several return scalar types) / integral / remove_if / stack (vector and matrix form) on the real headers;
+// assignments of views (slice, partial index, reshape; taken through the owning tensor, the const owning tensor, a map or
+// a constant map of its buffer) to the very tensor they alias and to fresh / bigger / same-size / mapped destinations,
+// writes through views, gathers into provided (re-used) outputs, and the integral for (input, output) scalar pairs.
 #include "common.h"
 #include <array>
 #include <nano/tensor.h>
 #include <nano/tensor/algorithm.h>
 #include <nano/tensor/integral.h>
 #include <nano/tensor/stack.h>
+#include <type_traits>
+#include <utility>
 
 using namespace nano;
 using vh::bad_op;
@@ -440,9 +445,514 @@ std::string op_stackmat(int64_t rows, int64_t cols, const std::vector<std::array
     return out.str();
 }
 
+// ---- assignments of views, writes through views, gathers into provided outputs, mixed-type integral ---------------
+// The owner of these ops is filled with `offset + 1` (never 0, every element distinct for the sizes generated).
+template <class tscalar, size_t trank>
+tensor_mem_t<tscalar, trank> make_seq(const tensor_dims_t<trank>& dims)
+{
+    tensor_mem_t<tscalar, trank> t(dims);
+    for (tensor_size_t i = 0; i < t.size(); ++i)
+    {
+        t(i) = static_cast<tscalar>(i + 1);
+    }
+    return t;
+}
+
+template <class ttensor>
+bool is_seq(const ttensor& t)
+{
+    for (tensor_size_t i = 0; i < t.size(); ++i)
+    {
+        if (static_cast<long long>(t(i)) != static_cast<long long>(i + 1))
+        {
+            return false;
+        }
+    }
+    return true;
+}
+
+// hands `fun` the object the accessor is called on: the owning tensor ("mem"), the same as const ("cmem"), a mutable
+// map of its buffer ("map") or a constant map of its buffer ("cmap")
+template <class tscalar, size_t trank, class tfun>
+void via_call(tensor_mem_t<tscalar, trank>& t, const std::string& via, const tfun& fun)
+{
+    if (via == "mem")
+    {
+        fun(t);
+    }
+    else if (via == "cmem")
+    {
+        fun(std::as_const(t));
+    }
+    else if (via == "map")
+    {
+        tensor_map_t<tscalar, trank> m = t.tensor();
+        fun(m);
+    }
+    else if (via == "cmap")
+    {
+        tensor_cmap_t<tscalar, trank> c = std::as_const(t).tensor();
+        fun(c);
+    }
+    else
+    {
+        throw bad_op("via");
+    }
+}
+
+// `destination = view` for a destination that does not share memory with the view; prints the destination
+template <class tview>
+void assign_other(out_t& out, const tview& view, const std::string& dst)
+{
+    using tscalar            = std::remove_cv_t<std::remove_pointer_t<decltype(view.data())>>;
+    constexpr auto vrank     = tview::rank();
+    using tmem               = tensor_mem_t<tscalar, vrank>;
+    const auto     junk      = static_cast<tscalar>(-7);
+    if (dst == "fresh")
+    {
+        tmem x;
+        x = view;
+        print_tensor(out, x);
+    }
+    else if (dst == "ctor")
+    {
+        const tmem x{view};
+        print_tensor(out, x);
+    }
+    else if (dst == "big")
+    {
+        auto dims = view.dims();
+        for (auto& dim : dims)
+        {
+            dim += 2;
+        }
+        tmem x(dims);
+        x.full(junk);
+        x = view;
+        print_tensor(out, x);
+    }
+    else if (dst == "same")
+    {
+        // same number of elements, other dimensions: the assignment must re-dimension without re-allocating
+        auto dims = view.dims();
+        for (auto& dim : dims)
+        {
+            dim = 1;
+        }
+        dims[vrank - 1] = view.size();
+        tmem x(dims);
+        x.full(junk);
+        x = view;
+        print_tensor(out, x);
+    }
+    else if (dst == "omap")
+    {
+        // a mutable map over another owning tensor of the view's shape: element-wise copy into the mapped memory
+        tmem back(view.dims());
+        back.full(junk);
+        tensor_map_t<tscalar, vrank> m = back.tensor();
+        m                              = view;
+        print_tensor(out, back);
+    }
+    else
+    {
+        throw bad_op("destination");
+    }
+}
+
+template <class tscalar, size_t trank>
+std::string op_aslice(const ivec& d, int64_t b, int64_t e, const std::string& via, const std::string& dst)
+{
+    const auto dims = to_dims<trank>(d);
+    auto       t    = make_seq<tscalar, trank>(dims);
+    out_t      out;
+    out << "ok";
+    if (dst == "self")
+    {
+        // the view aliases the very tensor that is assigned to
+        if (via == "range")
+        {
+            t = t.slice(make_range(b, e));
+        }
+        else
+        {
+            via_call(t, via, [&](auto& x) { t = x.slice(b, e); });
+        }
+        out << 1;
+        print_tensor(out, t);
+    }
+    else
+    {
+        out_t res;
+        if (via == "range")
+        {
+            assign_other(res, t.slice(make_range(b, e)), dst);
+        }
+        else
+        {
+            via_call(t, via, [&](auto& x) { assign_other(res, x.slice(b, e), dst); });
+        }
+        out << ((t.dims() == dims && is_seq(t)) ? 1 : 0);
+        out.raw(res.str());
+    }
+    return out.str();
+}
+
+template <class tscalar, size_t trank>
+std::string op_areshape(const ivec& d, const ivec& sizes, const std::string& via, const std::string& dst)
+{
+    if (sizes.size() != trank)
+    {
+        throw bad_op("areshape keeps the rank");
+    }
+    const auto dims = to_dims<trank>(d);
+    auto       t    = make_seq<tscalar, trank>(dims);
+    out_t      out;
+    out << "ok";
+    const auto view_of = [&](auto& x) { return call_with<trank>([&](auto... s) { return x.reshape(s...); }, sizes); };
+    if (dst == "self")
+    {
+        via_call(t, via, [&](auto& x) { t = view_of(x); });
+        out << 1;
+        print_tensor(out, t);
+    }
+    else
+    {
+        out_t res;
+        via_call(t, via, [&](auto& x) { assign_other(res, view_of(x), dst); });
+        out << ((t.dims() == dims && is_seq(t)) ? 1 : 0);
+        out.raw(res.str());
+    }
+    return out.str();
+}
+
+template <class tscalar, size_t trank, size_t K>
+std::string op_asub_k(const ivec& d, const ivec& pre, const std::string& via, const std::string& dst)
+{
+    constexpr size_t vrank = trank - K;
+    const auto       dims  = to_dims<trank>(d);
+    out_t            out;
+    out << "ok";
+    if (dst == "self")
+    {
+        // the assigned tensor has the rank of the view and owns the whole buffer (dims (n, 1, …)); the view is taken
+        // through a reshape of that buffer to the op's dims: owner = owner.reshape(dims…).tensor(prefix…)
+        tensor_dims_t<vrank> odims;
+        for (auto& dim : odims)
+        {
+            dim = 1;
+        }
+        odims[0] = nano::size(dims);
+        auto o   = make_seq<tscalar, vrank>(odims);
+        via_call(o, via,
+                 [&](auto& x)
+                 {
+                     const auto r = call_with<trank>([&](auto... s) { return x.reshape(s...); }, d);
+                     o            = call_with<K>([&](auto... i) { return r.tensor(i...); }, pre);
+                 });
+        out << 1;
+        print_tensor(out, o);
+    }
+    else
+    {
+        auto  t = make_seq<tscalar, trank>(dims);
+        out_t res;
+        via_call(t, via,
+                 [&](auto& x) { assign_other(res, call_with<K>([&](auto... i) { return x.tensor(i...); }, pre), dst); });
+        out << ((t.dims() == dims && is_seq(t)) ? 1 : 0);
+        out.raw(res.str());
+    }
+    return out.str();
+}
+
+template <class tscalar, size_t trank, size_t K>
+std::string op_wsub_k(const ivec& d, const ivec& pre, const std::string& kind)
+{
+    auto t = make_seq<tscalar, trank>(to_dims<trank>(d));
+    if (kind == "tensor")
+    {
+        auto v = call_with<K>([&](auto... i) { return t.tensor(i...); }, pre);
+        for (tensor_size_t j = 0; j < v.size(); ++j)
+        {
+            v(j) = static_cast<tscalar>(-(j + 1));
+        }
+    }
+    else if (kind == "vector")
+    {
+        auto v = call_with<K>([&](auto... i) { return t.vector(i...); }, pre);
+        for (Eigen::Index j = 0; j < v.size(); ++j)
+        {
+            v(j) = static_cast<tscalar>(-(j + 1));
+        }
+    }
+    else if (kind == "array")
+    {
+        auto v = call_with<K>([&](auto... i) { return t.array(i...); }, pre);
+        for (Eigen::Index j = 0; j < v.size(); ++j)
+        {
+            v(j) = static_cast<tscalar>(-(j + 1));
+        }
+    }
+    else if (kind == "matrix")
+    {
+        if constexpr (K + 2 == trank)
+        {
+            auto m = call_with<K>([&](auto... i) { return t.matrix(i...); }, pre);
+            for (Eigen::Index r = 0; r < m.rows(); ++r)
+            {
+                for (Eigen::Index c = 0; c < m.cols(); ++c)
+                {
+                    m(r, c) = static_cast<tscalar>(-(r * m.cols() + c + 1));
+                }
+            }
+        }
+        else
+        {
+            throw bad_op("matrix needs rank-2 remainder");
+        }
+    }
+    else
+    {
+        throw bad_op("view kind");
+    }
+    out_t out;
+    out << "ok";
+    print_tensor(out, t);
+    return out.str();
+}
+
+// dispatch on the length of the index prefix
+template <class tscalar, size_t trank, class tfun>
+std::string by_prefix(const ivec& pre, const tfun& fun)
+{
+    switch (pre.size())
+    {
+    case 0: return fun(std::integral_constant<size_t, 0>{});
+    case 1:
+        if constexpr (trank > 1)
+        {
+            return fun(std::integral_constant<size_t, 1>{});
+        }
+        break;
+    case 2:
+        if constexpr (trank > 2)
+        {
+            return fun(std::integral_constant<size_t, 2>{});
+        }
+        break;
+    case 3:
+        if constexpr (trank > 3)
+        {
+            return fun(std::integral_constant<size_t, 3>{});
+        }
+        break;
+    default: break;
+    }
+    throw bad_op("prefix too long");
+}
+
+template <class tscalar, size_t trank>
+std::string op_wslice(const ivec& d, int64_t b, int64_t e, const std::string& how)
+{
+    auto       t     = make_seq<tscalar, trank>(to_dims<trank>(d));
+    const auto write = [](auto v)
+    {
+        for (tensor_size_t j = 0; j < v.size(); ++j)
+        {
+            v(j) = static_cast<tscalar>(-(j + 1));
+        }
+    };
+    if (how == "mem")
+    {
+        write(t.slice(b, e));
+    }
+    else if (how == "map")
+    {
+        tensor_map_t<tscalar, trank> m = t.tensor();
+        write(m.slice(b, e));
+    }
+    else if (how == "range")
+    {
+        write(t.slice(make_range(b, e)));
+    }
+    else
+    {
+        throw bad_op("how");
+    }
+    out_t out;
+    out << "ok";
+    print_tensor(out, t);
+    return out.str();
+}
+
+template <size_t trank>
+std::string op_gatherinto(const ivec& d, const ivec& idx, const ivec& odims, const std::string& mode)
+{
+    if (odims.size() != trank)
+    {
+        throw bad_op("output rank");
+    }
+    const auto t    = make_iota<int64_t, trank>(d);
+    const auto make = [](const ivec& v)
+    {
+        indices_t indices(static_cast<tensor_size_t>(v.size()));
+        for (size_t i = 0; i < v.size(); ++i)
+        {
+            indices(static_cast<tensor_size_t>(i)) = v[i];
+        }
+        return indices;
+    };
+    const auto                   indices = make(idx);
+    tensor_mem_t<int64_t, trank> out_tensor(to_dims<trank>(odims));
+    out_tensor.full(-7);
+    if (mode == "map")
+    {
+        // the overload writing into mapped memory of exactly the right shape
+        t.indexed(indices, out_tensor.tensor());
+    }
+    else if (mode == "mem")
+    {
+        t.indexed(indices, out_tensor);
+    }
+    else if (mode == "twice")
+    {
+        // the same output re-used: first a gather of twice as many sub-tensors, then the requested one
+        auto twice = idx;
+        twice.insert(twice.end(), idx.begin(), idx.end());
+        t.indexed(make(twice), out_tensor);
+        t.indexed(indices, out_tensor);
+    }
+    else
+    {
+        throw bad_op("mode");
+    }
+    out_t out;
+    out << "ok";
+    print_tensor(out, out_tensor);
+    return out.str();
+}
+
+template <class tscalari, class tscalaro, size_t trank>
+std::string op_integralx(const ivec& d, const ivec& data)
+{
+    tensor_mem_t<tscalari, trank> it(to_dims<trank>(d));
+    tensor_mem_t<tscalaro, trank> ot(to_dims<trank>(d));
+    if (static_cast<size_t>(it.size()) != data.size())
+    {
+        throw bad_op("data size");
+    }
+    for (tensor_size_t i = 0; i < it.size(); ++i)
+    {
+        it(i) = static_cast<tscalari>(data[static_cast<size_t>(i)]);
+        if (static_cast<int64_t>(it(i)) != data[static_cast<size_t>(i)])
+        {
+            throw bad_op("value not representable in the input scalar type");
+        }
+    }
+    ot.zero();
+    nano::integral(it, ot);
+    out_t out;
+    out << "ok";
+    print_tensor(out, ot);
+    return out.str();
+}
+
+template <class tscalari, size_t trank>
+std::string op_integralx_o(const std::string& oty, const ivec& d, const ivec& data)
+{
+    if (oty == "i32") return op_integralx<tscalari, int32_t, trank>(d, data);
+    if (oty == "i64") return op_integralx<tscalari, int64_t, trank>(d, data);
+    if (oty == "f64") return op_integralx<tscalari, double, trank>(d, data);
+    throw bad_op("output scalar type");
+}
+
+template <size_t trank>
+std::string op_integralx_io(const std::string& ity, const std::string& oty, const ivec& d, const ivec& data)
+{
+    if (ity == "i8") return op_integralx_o<int8_t, trank>(oty, d, data);
+    if (ity == "u8") return op_integralx_o<uint8_t, trank>(oty, d, data);
+    if (ity == "i16") return op_integralx_o<int16_t, trank>(oty, d, data);
+    if (ity == "i32") return op_integralx_o<int32_t, trank>(oty, d, data);
+    if (ity == "f32" && oty == "f64") return op_integralx<float, double, trank>(d, data);
+    throw bad_op("input scalar type");
+}
+
+// aslice / asub / areshape / wsub / wslice for one element type of the owner
+template <class tscalar, size_t trank>
+std::string dispatch_typed(const std::string& op, toks_t& toks, const ivec& d)
+{
+    if (op == "aslice")
+    {
+        const auto b   = toks.i64();
+        const auto e   = toks.i64();
+        const auto via = toks.s();
+        const auto dst = toks.s();
+        return op_aslice<tscalar, trank>(d, b, e, via, dst);
+    }
+    if (op == "areshape")
+    {
+        const auto sizes = toks.ints();
+        const auto via   = toks.s();
+        const auto dst   = toks.s();
+        return op_areshape<tscalar, trank>(d, sizes, via, dst);
+    }
+    if (op == "asub")
+    {
+        const auto pre = toks.ints();
+        const auto via = toks.s();
+        const auto dst = toks.s();
+        return by_prefix<tscalar, trank>(pre, [&](auto k)
+                                         { return op_asub_k<tscalar, trank, decltype(k)::value>(d, pre, via, dst); });
+    }
+    if (op == "wsub")
+    {
+        const auto pre  = toks.ints();
+        const auto kind = toks.s();
+        return by_prefix<tscalar, trank>(pre, [&](auto k)
+                                         { return op_wsub_k<tscalar, trank, decltype(k)::value>(d, pre, kind); });
+    }
+    if (op == "wslice")
+    {
+        const auto b   = toks.i64();
+        const auto e   = toks.i64();
+        const auto how = toks.s();
+        return op_wslice<tscalar, trank>(d, b, e, how);
+    }
+    throw bad_op("unknown op " + op);
+}
+
 template <size_t trank>
 std::string dispatch(const std::string& op, toks_t& toks, const ivec& d)
 {
+    if (op == "aslice" || op == "areshape" || op == "asub" || op == "wsub" || op == "wslice")
+    {
+        if constexpr (trank <= 4)
+        {
+            // the element type is the last token of the line
+            const auto type = toks.t.back();
+            if (type == "i64") return dispatch_typed<int64_t, trank>(op, toks, d);
+            if (type == "i32") return dispatch_typed<int32_t, trank>(op, toks, d);
+            if (type == "i16") return dispatch_typed<int16_t, trank>(op, toks, d);
+            throw bad_op("type");
+        }
+        throw bad_op("rank above 4");
+    }
+    if (op == "gatherinto")
+    {
+        const auto idx   = toks.ints();
+        const auto odims = toks.ints();
+        return op_gatherinto<trank>(d, idx, odims, toks.s());
+    }
+    if (op == "integralx")
+    {
+        if constexpr (trank <= 4)
+        {
+            const auto ity = toks.s();
+            const auto oty = toks.s();
+            return op_integralx_io<trank>(ity, oty, d, toks.ints());
+        }
+        throw bad_op("rank above 4");
+    }
     if (op == "offset")
     {
         const auto idx = toks.ints();
